@@ -278,6 +278,8 @@ def check(run):
         timing[name] = round(time.time() - t0, 1)
         t0 = time.time()
     pr = run.proof_stage(extra_modules=['theories/Props/C14_inventory.v', 'theories/Model/MapLoopsCheck.v'])
+    if not run.quick() and pr['build_ok']:
+        run.coqchk_stage()
     lap('proofs')
     inv, log = inventory(run)
     lap('inventory')
@@ -399,7 +401,9 @@ def check(run):
         run.violation(dict(kind='correspondence', what='a map-loop model of Model/MapLoops.v disagrees with the real function',
                            cases=ml['mismatch_samples'], broken='correspondence Model.MapLoops <-> real loops'),
                       name='replay_maploops.json', no_input=True)
-    return run.finish(level='proof+replay (partial)')
+    run.coverage['claim'] = ('PARTIAL: order-independence of every map-ranging loop is proved; absence of other such places, the '
+                             'harmlessness of the other hazards (allow-list) and agreement of independent replays are checked, not proved')
+    return run.finish()
 
 
 # ----------------------------------------------------------------------------------------------
